@@ -23,4 +23,5 @@ class Check(PropertyCheck):
         return [("formulas.compute_swap", fam_swap.swap_cases(rng.sub("swap_cases"), tier)),
                 ("formulas.compute_swap.monotone", fam_swap.mono_cases(rng.sub("mono_cases"), tier)),
                 ("world.commission", fam_world.commission_histories(rng.sub("commission_histories"), tier)),
-                ("world.deep_pool", fam_world.deep_pool_histories(rng.sub("deep_pool"), tier))]
+                ("world.deep_pool", fam_world.deep_pool_histories(rng.sub("deep_pool"), tier)),
+                ("world.rate_text", fam_world.rate_text_histories(rng.sub("rate_text"), tier))]
